@@ -100,7 +100,10 @@ class ArityChecker(MultiFunction):
         """Apply to inner."""
         return self.product(o, a, self.conj(None, b))
 
-    dot = inner
+    def dot(self, o, a, b):
+        """Apply to dot."""
+        # Unlike inner, dot does not conjugate its second operand
+        return self.product(o, a, b)
 
     def outer(self, o, a, b):
         """Apply to outer."""
@@ -171,9 +174,13 @@ class ArityChecker(MultiFunction):
         if args:
             # Check that each list tensor component has the same
             # argument numbers (ignoring parts)
-            numbers = set(tuple(sorted(set(arg[0].number() for arg in op))) for op in ops)
-            if () in numbers:  # Allow e.g. <v[0], 0, v[1]> but not <v[0], u[0]>
-                numbers.remove(())
+            # Allow e.g. <v[0], 0, v[1]> but not <v[0], u[0]>, and not <v[0], f>
+            # which is affine in v: only zero components may be without arguments
+            numbers = set(
+                tuple(sorted(set(arg[0].number() for arg in op)))
+                for op, component in zip(ops, o.ufl_operands)
+                if not isinstance(component, Zero)
+            )
             if len(numbers) > 1:
                 raise ArityMismatch(
                     "Listtensor components must depend on the same argument numbers, "
